@@ -6,6 +6,7 @@ import IcyVerif.Drv.ColorOpt
 import IcyVerif.Drv.Comp
 import IcyVerif.Drv.Crc
 import IcyVerif.Drv.Font
+import IcyVerif.Drv.FontBox
 import IcyVerif.Drv.IcyDraw
 import IcyVerif.Drv.Igs
 import IcyVerif.Drv.Loaders
@@ -31,6 +32,7 @@ def dispatch (line : String) : String :=
   | "comp" :: rest => Comp.handle rest
   | "crc" :: rest => Crc.handle rest
   | "font" :: rest => Font.handle rest
+  | "fontbox" :: rest => FontBox.handle rest
   | "icydraw" :: rest => IcyDraw.handle rest
   | "igs" :: rest => Igs.handle rest
   | "loaders" :: rest => Loaders.handle rest
